@@ -63,6 +63,9 @@ Proof.
   eapply reach_anti; [|exact H2]. rewrite E. apply Qle_refl.
 Qed.
 
+Lemma SSorted_app_r {A} (P : A -> A -> Prop) l1 l2 : StronglySorted P (l1 ++ l2) -> StronglySorted P l2.
+Proof. induction l1 as [|x l1 IH]; cbn; intros H; [exact H|]. inversion H; subst. auto. Qed.
+
 (* ------------------------------------------------------------------ the loop *)
 Section Loop.
   Context {St El Ob : Type} (occupy : St -> El -> St) (sample : Q -> St -> St * Ob).
@@ -108,13 +111,13 @@ Section Loop.
     - assert (Epre : pre = all) by (rewrite Ea, app_nil_r; reflexivity).
       assert (rest = []) as ->.
       { destruct rest as [|p rest]; [reflexivity|]. exfalso. inversion Nr as [|? ? H1 _]; subst. inversion Le1 as [|? ? H2 _]; subst.
-        fold M in H1. rewrite reach_full in H1 by assumption. discriminate. }
-      exists s, [], (length pre). cbn. split; [reflexivity|]. split; [constructor|].
-      rewrite Epre at 1. fold M. rewrite firstn_all. repeat split; auto; try contradiction. rewrite Epre. fold M. lia.
+        rewrite Epre in H1. fold M in H1. rewrite reach_full in H1 by assumption. discriminate. }
+      subst pre. exists s, [], (length all). cbn. split; [reflexivity|]. split; [constructor|].
+      split; [rewrite firstn_all; exact Rs|]. split; [unfold M; lia|]. split; [reflexivity | intros p []].
     - destruct rest as [|p0 rest0].
       + exists s, [], (length pre). cbn. split; [reflexivity|]. split; [constructor|].
-        rewrite Ea, firstn_app, Nat.sub_diag, firstn_all, firstn_O, app_nil_r.
-        repeat split; auto; try contradiction. unfold M. rewrite Ea, app_length. lia.
+        split; [|split; [unfold M; rewrite Ea, app_length; lia|split; [reflexivity | intros p []]]].
+        rewrite Ea at 1. rewrite firstn_app, Nat.sub_diag, firstn_all, firstn_O, app_nil_r. exact Rs.
       + set (rest := p0 :: rest0) in *. cbn [loop]. fold rest.
         pose proof (R_occupy pre e es s Ea Rs) as R1.
         assert (Ea' : all = (pre ++ [e]) ++ es) by (rewrite <- app_assoc; exact Ea).
@@ -125,7 +128,7 @@ Section Loop.
         destruct (take_spec (S (length pre)) (pre ++ [e]) rest (occupy s e) R1) as (tk & rest1 & s2 & os & E & Er & Ft & Hd & R2 & F2).
         rewrite E.
         assert (Srt1 : StronglySorted Qlt rest1).
-        { clear - Srt Er. rewrite Er in Srt. induction tk as [|t tk IHt]; [exact Srt|]. inversion Srt; subst. auto. }
+        { apply (SSorted_app_r _ tk). rewrite <- Er. exact Srt. }
         assert (Nr1 : Forall (fun p => reach (length (pre ++ [e])) M p = false) rest1).
         { rewrite Lp. destruct rest1 as [|q rest1]; [constructor|]. constructor; [exact Hd|].
           inversion Srt1 as [|? ? _ Hq]; subst. rewrite Forall_forall in Hq |- *. intros q' Iq'.
@@ -190,3 +193,64 @@ Section Loop.
         cbn [length] in E. rewrite E. exists s', os, n. auto.
   Qed.
 End Loop.
+
+(* ------------------------------------------------------------------ the series never decreases *)
+Section Mono.
+  Context {St El Ob : Type} (occupy : St -> El -> St) (sample : Q -> St -> St * Ob) (f : St -> Z) (g : Ob -> Z).
+  Hypothesis f_occupy : forall s e, (f s <= f (occupy s e))%Z.
+  Hypothesis f_sample : forall p s, f (fst (sample p s)) = f s.
+  Hypothesis g_sample : forall p s, g (snd (sample p s)) = f s.
+
+  Lemma take_mono k M : forall rest s rest' s' os, take sample k M rest s = (rest', s', os) ->
+    f s' = f s /\ Forall (fun o => g o = f s) os.
+  Proof.
+    induction rest as [|p rest IH]; intros s rest' s' os E; cbn [take] in E.
+    - injection E as <- <- <-. auto.
+    - destruct (reach k M p).
+      + pose proof (f_sample p s) as Fs. pose proof (g_sample p s) as Gs.
+        destruct (sample p s) as [s1 o]. cbn [fst snd] in Fs, Gs.
+        destruct (take sample k M rest s1) as [[r2 s2] os2] eqn:E2. injection E as <- <- <-.
+        destruct (IH _ _ _ _ E2) as [H1 H2]. split; [congruence|]. constructor; [exact Gs|].
+        eapply Forall_impl; [|exact H2]. cbn. intros o' Ho. congruence.
+      + injection E as <- <- <-. auto.
+  Qed.
+
+  Lemma sorted_const_app (c : Z) l1 l2 : Forall (fun x => x = c) l1 -> Forall (fun x => (c <= x)%Z) l2 ->
+    StronglySorted Z.le l2 -> StronglySorted Z.le (l1 ++ l2).
+  Proof.
+    intros H1 H2 S2. induction l1 as [|x l1 IH]; [exact S2|]. inversion H1 as [|? ? Ex H1']; subst. cbn.
+    constructor; [apply IH; exact H1'|]. apply Forall_app. split; [|exact H2].
+    eapply Forall_impl; [|exact H1']. cbn. intros y ->. lia.
+  Qed.
+
+  Lemma loop_mono M : forall es i rest s s' os n, loop occupy sample M i es rest s = (s', os, n) ->
+    Forall (fun o => (f s <= g o)%Z) os /\ StronglySorted Z.le (map g os).
+  Proof.
+    induction es as [|e es IH]; intros i rest s s' os n E; cbn [loop] in E.
+    - injection E as <- <- <-. split; constructor.
+    - destruct rest as [|p0 rest0]; [injection E as <- <- <-; split; constructor|].
+      destruct (take sample (S i) M (p0 :: rest0) (occupy s e)) as [[rest1 s2] os1] eqn:E1.
+      destruct (loop occupy sample M (S i) es rest1 s2) as [[s3 os2] n2] eqn:E2. injection E as <- <- <-.
+      destruct (take_mono _ _ _ _ _ _ _ E1) as [F1 G1]. destruct (IH _ _ _ _ _ _ E2) as [F2 S2].
+      pose proof (f_occupy s e) as Fo. split.
+      + apply Forall_app. split.
+        * eapply Forall_impl; [|exact G1]. cbn. intros o Ho. lia.
+        * eapply Forall_impl; [|exact F2]. cbn. intros o Ho. lia.
+      + rewrite map_app. apply (sorted_const_app (f (occupy s e))).
+        * clear - G1. induction G1; cbn; constructor; auto.
+        * clear - F2 F1. rewrite <- F1. induction F2; cbn; constructor; auto.
+        * exact S2.
+  Qed.
+
+  Theorem percolate_mono es ps s0 s' os n : percolate occupy sample es ps s0 = (s', os, n) ->
+    StronglySorted Z.le (map g os).
+  Proof.
+    unfold percolate. intros E. destruct ps as [|p ps]; [apply (loop_mono _ _ _ _ _ _ _ _ E)|].
+    destruct (Qeq_bool p 0); [|apply (loop_mono _ _ _ _ _ _ _ _ E)].
+    pose proof (f_sample p s0) as Fs. pose proof (g_sample p s0) as Gs.
+    destruct (sample p s0) as [s1 o]. cbn [fst snd] in Fs, Gs.
+    destruct (loop occupy sample (length es) 0 es ps s1) as [[s2 os2] n2] eqn:E2. injection E as <- <- <-.
+    destruct (loop_mono _ _ _ _ _ _ _ _ E2) as [F2 S2]. cbn [map]. constructor; [exact S2|].
+    clear - F2 Fs Gs. rewrite Gs, <- Fs. induction F2; cbn; constructor; auto.
+  Qed.
+End Mono.
